@@ -1,15 +1,15 @@
 CONSTANTS
-  NArb = 2
+  NArb = 1
   Thr = {t1}
   PreCreated = 1
-  Kinds = {"spawn"}
-  TaskStop = TRUE
+  Kinds = {"spawn", "spawn_fn"}
+  TaskStop = FALSE
   AtomicCalls = TRUE
   EagerJoin = TRUE
-  MaxCmds = 3
-  MaxSys = 2
-  Codes = {0, 7}
-  AllowBusy = FALSE
+  MaxCmds = 4
+  MaxSys = 1
+  Codes = {0}
+  AllowBusy = TRUE
   FifoLocalQueue = TRUE
   StopEndsLoop = TRUE
   FirstCodeKept = TRUE
@@ -31,10 +31,10 @@ CONSTANTS
   EveryExitStops = TRUE
   RxDropAtLoopEnd = TRUE
   DequeueBatch = 0
-  StopAlwaysHandled = TRUE
-  QueueCap = 2
+  StopAlwaysHandled = FALSE
+  QueueCap = 0
 SPECIFICATION Spec
 VIEW View
 SYMMETRY ThrSym
-INVARIANTS C09_FirstCodeWins C09_AllRegisteredStop C09_RunErrOnNonZero C09_EarlyStoppedDeregistered
+INVARIANTS TypeOK C10_StartOrderRespectsSendOrder C10_AtMostOnce C10_OnOwnThread C10_NothingAfterStop C10_SpawnFalseWhenGone C10_JoinAfterLoopEnd C10_BlockOnOutput C10_AcceptedStarts
 CHECK_DEADLOCK FALSE
